@@ -810,4 +810,54 @@ theorem choleskyForward_ok (cholEx : (Nat → Nat → ℝ) → (Nat → Nat → 
     exact ⟨h0, h.symm⟩
   · simp [h0] at h
 
+/-- **batched `Cholesky.forward`** under the kernel contract, all items symmetric: the call returns iff EVERY item is
+positive definite; then every item is solved; a single non-PD item makes the whole call raise (no partially wrong
+batch is ever returned). -/
+theorem choleskyForwardBatch_spec (n : Nat) (cholEx : (Nat → Nat → ℝ) → (Nat → Nat → ℝ) × Nat)
+    (solveK : (Nat → Nat → ℝ) → (Nat → ℝ) → Tab ℝ) (hK : CholContract n cholEx solveK)
+    (items : List ((Nat → Nat → ℝ) × (Nat → ℝ))) (hs : ∀ it ∈ items, IsSymm n it.1) :
+    ((∃ xs, choleskyForwardBatch cholEx solveK items = .ok xs) ↔ ∀ it ∈ items, IsSPD n it.1) ∧
+    (∀ xs, choleskyForwardBatch cholEx solveK items = .ok xs →
+      xs.length = items.length ∧
+      ∀ k (hk : k < items.length) (hk' : k < xs.length), ∀ i, i < n →
+        ∑ j ∈ range n, (items[k]).1 i j * (xs[k]).get j = (items[k]).2 i) := by
+  have hany : (items.any (fun it => (cholEx it.1).2 != 0)) = true ↔ ∃ it ∈ items, ¬ IsSPD n it.1 := by
+    rw [List.any_eq_true]
+    constructor
+    · rintro ⟨it, hit, h⟩
+      refine ⟨it, hit, fun hspd => ?_⟩
+      have := (hK.info_iff it.1 (hs it hit)).mpr hspd
+      simp [this] at h
+    · rintro ⟨it, hit, h⟩
+      refine ⟨it, hit, ?_⟩
+      have : (cholEx it.1).2 ≠ 0 := fun h0 => h ((hK.info_iff it.1 (hs it hit)).mp h0)
+      simpa using this
+  constructor
+  · unfold choleskyForwardBatch
+    constructor
+    · rintro ⟨xs, hxs⟩ it hit
+      by_contra hn
+      rw [if_pos (hany.mpr ⟨it, hit, hn⟩)] at hxs
+      cases hxs
+    · intro hall
+      have : ¬ (items.any (fun it => (cholEx it.1).2 != 0)) = true := by
+        rw [hany]; rintro ⟨it, hit, h⟩; exact h (hall it hit)
+      rw [if_neg this]
+      exact ⟨_, rfl⟩
+  · intro xs hxs
+    unfold choleskyForwardBatch at hxs
+    by_cases hb : (items.any (fun it => (cholEx it.1).2 != 0)) = true
+    · rw [if_pos hb] at hxs; cases hxs
+    · rw [if_neg hb, Except.ok.injEq] at hxs
+      subst hxs
+      refine ⟨by simp, ?_⟩
+      intro k hk hk' i hi
+      have hmem : items[k] ∈ items := List.getElem_mem hk
+      have hspd : IsSPD n (items[k]).1 := by
+        by_contra hn
+        exact hb (hany.mpr ⟨_, hmem, hn⟩)
+      have h0 := (hK.info_iff _ (hs _ hmem)).mpr hspd
+      simp only [List.getElem_map]
+      exact hK.solves _ _ (hs _ hmem) h0 i hi
+
 end PP.LinSolve
